@@ -74,6 +74,11 @@ structure DAcc where
   monitorHits : Nat := 0
   unmodelled : Nat := 0
 
+/-- the kind of an implementation error: its words without numbers, addresses and ids -/
+def errKind (s : String) : String :=
+  let ws := (s.splitOn " ").filter (fun w => !w.isEmpty && w.toList.all (fun c => c.isAlpha || c == ':' || c == ',' || c == '\'' || c == '-') && w.length < 20)
+  "_".intercalate (ws.take 9)
+
 def processLine (acc : DAcc) (line : String) : IO DAcc := do
   match Json.parse line with
   | .error e => IO.println s!"PARSE-ERROR {e}"; return acc
@@ -96,6 +101,7 @@ def processLine (acc : DAcc) (line : String) : IO DAcc := do
       let opj := (j.getObjVal? "op").toOption.getD Json.null
       let k := (opj.getObjValAs? String "k").toOption.getD "?"
       let resS := ((j.getObjVal? "res").toOption.bind (fun r => (r.getObjValAs? String "res").toOption)).getD "?"
+      let errS := ((j.getObjVal? "res").toOption.bind (fun r => (r.getObjValAs? String "err").toOption)).getD ""
       let st0 : Except String State := getF j "state"
       let gl : Dec := ((j.getObjVal? "state").toOption.bind (fun x => (x.getObjValAs? Int "global").toOption)).getD 0
       let st : Except String Sys := st0.map (fun x => ⟨x, gl⟩)
@@ -124,7 +130,7 @@ def processLine (acc : DAcc) (line : String) : IO DAcc := do
         for (c, msg) in Monitors.checkStep acc.env pre op (parseRes resS) implPost do
           acc := { acc with monitorHits := acc.monitorHits + 1 }
           IO.println s!"MONITOR hist={acc.hist} i={i} op={k} prop={c} {msg}"
-        IO.println s!"STEP hist={acc.hist} i={i} op={k} res={resS}"
+        IO.println s!"STEP hist={acc.hist} i={i} op={k} res={resS} kind={errKind errS}"
         return { acc with prev := some implPost }
 
 partial def loop (h : IO.FS.Stream) (acc : DAcc) : IO DAcc := do
